@@ -7,6 +7,9 @@ import leafgen as lg
 
 ID = 'C07'
 GEN = ['kernels', 'validators']
+# the scalar kernels of functions.py this property's statement depends on (a change confined to the others is not this property's business;
+# what its own correspondence compares still is)
+KERNELS_USED = ['ABCCost.s', 'ABCCost.q', 'ABCCost._cost', 'HLQuadraticCost._cost']
 PROPS = 'Props/C07.v'
 MODEL_VO = ['Model/Dev.v']
 CASE_TYPE = 'leafdev Q * list Q * list Q * Q'
